@@ -18,23 +18,29 @@ def Reachable (s : St) : Prop := ∃ rs, s = run {} rs
 by what the pipe still holds is exactly what the source has produced -/
 theorem stream_invariant (rs : List Resp) (h : (run {} rs).phase ≠ .failed) :
     (run {} rs).delivered ++ pendingBytes (run {} rs) = (run {} rs).readSoFar := by
-  sorry
+  have hi := inv_reach rs
+  generalize run {} rs = s at h hi
+  unfold Inv at hi
+  unfold pendingBytes
+  split at hi <;> simp_all
 
 /-- even on the failure path nothing is invented or reordered: delivered bytes are a prefix of
 what was read -/
 theorem delivered_is_prefix (rs : List Resp) : (run {} rs).delivered <+: (run {} rs).readSoFar := by
-  sorry
+  exact (inv_weak (inv_reach rs)).1
 
 /-- **Credit equals bytes forwarded**: the receive-window credit returned to the sender
 (`consume`) never exceeds, and at every loop head equals, the number of its bytes the sink
 accepted; the metrics callback reports the same amounts -/
 theorem credit_le_forwarded (rs : List Resp) :
     (run {} rs).consumed ≤ (run {} rs).delivered.length ∧ (run {} rs).metered ≤ (run {} rs).delivered.length := by
-  sorry
+  exact (inv_weak (inv_reach rs)).2
 
 theorem credit_eq_forwarded_at_loop_head (rs : List Resp) (h : (run {} rs).phase = .top) :
     (run {} rs).consumed = (run {} rs).delivered.length ∧ (run {} rs).metered = (run {} rs).delivered.length := by
-  sorry
+  have hi := inv_reach rs
+  simp only [Inv, h] at hi
+  exact hi.2
 
 /-- **End-of-stream is passed on only after all preceding bytes were delivered**, and a finished
 direction delivered everything: `Finished` implies the source reported EOF, every byte read was
@@ -42,17 +48,24 @@ accepted by the sink, and all of it was credited -/
 theorem finished_complete (rs : List Resp) (h : (run {} rs).phase = .finished) :
     (run {} rs).sawEof = true ∧ (run {} rs).delivered = (run {} rs).readSoFar ∧
     (run {} rs).pending = none ∧ (run {} rs).consumed = (run {} rs).delivered.length := by
-  sorry
+  have hi := inv_reach rs
+  simp only [Inv, h] at hi
+  exact ⟨hi.2.2.1, hi.2.1, hi.1, hi.2.2.2.1⟩
 
 theorem eof_only_when_drained (rs : List Resp)
     (h : (run {} rs).phase = .eofing ∨ (run {} rs).phase = .flushing) :
     (run {} rs).delivered = (run {} rs).readSoFar ∧ (run {} rs).pending = none := by
-  sorry
+  have hi := inv_reach rs
+  rcases h with h | h <;> simp only [Inv, h] at hi <;> exact ⟨hi.2.1, hi.1⟩
 
 /-- order of calls: `eof()` is issued after the last `write`, `flush()` after `eof()` -/
 theorem eof_after_writes (rs : List Resp) (pre post : List Call) (h : calls {} rs = pre ++ Call.sinkEof :: post) :
     (∀ c ∈ post, ∀ d, c ≠ Call.write d) ∧ (∀ c ∈ post, c = Call.flush) := by
-  sorry
+  have hf := calls_split_eof rs pre post h
+  refine ⟨fun c hc d hcd => ?_, hf⟩
+  have := hf c hc
+  rw [this] at hcd
+  cases hcd
 
 /-- **Cancellation and restart by the idle timer loses nothing**: a `timeout` answer changes
 neither the delivered bytes, nor the pending chunk, nor the credit -/
@@ -60,12 +73,14 @@ theorem restart_preserves (s : St) (h : s.phase = .top) :
     let s' := feed s .timeout
     s'.phase = .top ∧ s'.pending = s.pending ∧ s'.delivered = s.delivered ∧ s'.readSoFar = s.readSoFar ∧
     s'.consumed = s.consumed := by
-  sorry
+  simp [feed, h]
 
 /-- **A failure stops the direction at once**: after an error no further call is issued -/
 theorem no_call_after_failure (rs rs' : List Resp) (h : (run {} rs).phase = .failed) :
     next (run {} (rs ++ rs')) = none ∧ (run {} (rs ++ rs')).delivered = (run {} rs).delivered := by
-  sorry
+  rw [run_append]
+  have := run_failed rs' h
+  exact ⟨by simp [next, this.1], this.2⟩
 
 /-! ### both directions -/
 
@@ -74,21 +89,22 @@ down: the outcome is `ok` exactly when both simplex pipes finished, and once the
 decided neither direction is advanced any more (no write after the failure, in either direction) -/
 theorem duplex_clean_end (evs : List (Dir × Resp)) :
     (drun {} evs).outcome = .ok → (drun {} evs).left.phase = .finished ∧ (drun {} evs).right.phase = .finished := by
-  sorry
+  exact (dinv_reach evs).1
 
 theorem duplex_error_teardown (evs evs' : List (Dir × Resp)) (h : (drun {} evs).outcome = .error) :
     drun {} (evs ++ evs') = drun {} evs := by
-  sorry
+  rw [drun_append]
+  exact drun_decided evs' (by simp [h])
 
 theorem duplex_failure_is_error (evs : List (Dir × Resp)) (h : (drun {} evs).outcome = .running) :
     (drun {} evs).left.phase ≠ .failed ∧ (drun {} evs).right.phase ≠ .failed := by
-  sorry
+  exact (dinv_reach evs).2.1 h
 
 /-- each direction of a duplex pipe is itself a reachable simplex pipe, so all the statements
 above hold for both directions of every tunnel -/
 theorem duplex_directions_reachable (evs : List (Dir × Resp)) :
     Reachable (drun {} evs).left ∧ Reachable (drun {} evs).right := by
-  sorry
+  exact (dinv_reach evs).2.2
 
 example : (run {} [.chunk [1, 2, 3], .accepted 2, .unit, .unit, .timeout, .unit, .accepted 1, .unit, .unit,
     .eof, .unit, .unit]).phase = .finished := by decide
